@@ -19,6 +19,11 @@ pub(crate) fn convert(
         return None;
     }
 
+    if state.parent_defs.contains(&node) {
+        log::warn!("Recursive 'clipPath' detected: {}", node.element_id());
+        return None;
+    }
+
     // The whole clip path should be ignored when a transform is invalid.
     let mut transform = resolve_clip_path_transform(node, state)?;
 
@@ -51,10 +56,13 @@ pub(crate) fn convert(
         transform = transform.pre_concat(ts);
     }
 
+    let mut clip_state = state.clone();
+    clip_state.parent_defs.push(node);
+
     // Resolve linked clip path.
     let mut clip_path = None;
     if let Some(link) = node.attribute::<SvgNode>(AId::ClipPath) {
-        clip_path = convert(link, state, object_bbox, cache);
+        clip_path = convert(link, &clip_state, object_bbox, cache);
 
         // Linked `clipPath` must be valid.
         if clip_path.is_none() {
@@ -76,7 +84,6 @@ pub(crate) fn convert(
         root: Group::empty(),
     };
 
-    let mut clip_state = state.clone();
     clip_state.parent_clip_path = Some(node);
     converter::convert_clip_path_elements(node, &clip_state, cache, &mut clip.root);
 
